@@ -8,7 +8,9 @@ PROPS["C09"] = dict(
          "- a non-nil error -, a zero-size struct value, a value whose Error method panics, a context error, a non-comparable slice-typed value, a pointer to a custom type, errors.Join): err != nil is a failed creation whatever is inside the interface, "
          "the caller must get that error (lru:foreign-error otherwise) and the ledger / the sequential reference must see nothing inserted (classes failing_creations_return_error_*). Every call is recorded with the value "
          "returned, the value it created and the delete callbacks it made (attributed by goroutine); after a final Clear every created value must "
-         "have been deleted exactly once. Capacity 1..4 over 1..6 keys, key 0 being the zero value of the key type (the empty string); one case in four is a long recency history (10-40 calls, heavy on hits and removals) on one worker with the others interfering a little. One case in four builds the cache WITHOUT a delete callback (a legal configuration): the ledger is then silent and the case is judged on returned values, creations (hit vs miss) and Clear counts against the sequential LRU model. non-trivial = two workers were inside GetOrCreate of one key at the same time, or a delete callback ran "
+         "have been deleted exactly once. Capacity 1..4 over 1..6 keys, key 0 being the zero value of the key type (the empty string); one case in four is a long recency history (10-40 calls, heavy on hits and removals) on one worker with the others interfering a little. One case in four builds the cache WITHOUT a delete callback (a legal configuration): the ledger is then silent and the case is judged on returned values, creations (hit vs miss) and Clear counts against the sequential LRU model. One case in three of those with an int value (all modes) runs on an lru.ECache[string,string,int] with an ALIAS KEY MAPPING (lower-casing: every key but the empty one has two primary-key spellings, each call draws its own): single-flight, residency, recency and Remove go by the inner key, "
+         "the create function gets the spelling of the creating call, and the delete callback must get exactly the (spelling, value) pair the create function produced, whichever spelling hit, waited for or removed it later (lru:deleted-wrong-pk; classes alias_key_mapping, alias_hit_or_wait_through_the_other_spelling, alias_value_left_after_a_hit_through_the_other_spelling). "
+         "non-trivial = two workers were inside GetOrCreate of one key at the same time, or a delete callback ran "
          "while a creation was between its start and its insertion; distinct = hash of (case, mode). "
          "Value type: one case in three uses lru.Cache[string,any] instead of lru.Cache[string,int] - the value type is an interface type and a successful creation hands over a non-nil pointer, the nil interface value "
          "(create returns (nil, nil)) or a typed nil pointer (controlled/squeezed: part of the 'complete the creation' decision, 5:4:1; free-running: 30/60/100% of the successful creations are nil). A nil value is a value: "
